@@ -105,11 +105,11 @@ class Host(StatusHost):
             p = self.prs[pid]
             host = self
 
-            class _PR:
+            class _PR(common.HostNames):
                 id = p.id
                 src_branch = p.src
                 dst_branch = p.dst
-                author = 'contributor'
+                _author = 'contributor'
                 author_display_name = 'contributor'
                 status = 'OPEN'
                 title = 'title'
